@@ -37,9 +37,9 @@ def showCalls (cs : List Call) (closes : List (Nat × Nat)) : List String × Lis
         let k := ((closes.find? (·.1 == c.h)).map (·.2)).getD 0 + 1
         go rest i ((c.h, k) :: closes.filter (·.1 != c.h)) (s!"close={c.h}#{k}" :: acc)
       else if c.meth == "Renamed" then
-        go rest i closes (s!"renamed={c.h}:{c.ints.getD 0 0}:{hex (c.strs.getD 0 [])}" :: acc)
+        go rest i closes (s!"renamed={c.h}:{c.ints.getD 0 0}:{hex ((c.names.map (·.1)).getD 0 [])}" :: acc)
       else
-        let strs := "|".intercalate (c.strs.map hex)
+        let strs := "|".intercalate ((c.strs ++ c.names.map (·.1)).map hex)
         go rest (i+1) closes (s!"c{i}={c.h}.{c.meth}({commaN c.ints};{strs})" :: acc)
   go cs 0 closes []
 
